@@ -33,7 +33,7 @@ from . import _c19_vp8l as V
 
 VIOLATIONS = ["dup-transform", "cache-bits", "symbol-count", "repeat-overrun", "incomplete", "oversubscribed", "empty",
               "outside-alphabet", "backref-start", "backref-end", "predictor", "single-len", "clc-single-len",
-              "pal-width", "block-size", "early-fill"]
+              "pal-width", "block-size", "early-fill", "sixteen-after-zero"]
 # violations that libwebp accepts (documented strictness of webpsan)
 STRICTNESS = {"predictor", "single-len", "clc-single-len"}
 
@@ -81,6 +81,29 @@ def write_normal(bw, rng, alphabet, lens, use_max=None, inject=None):
         sym = rng.choice([1, 2, 3, 8])
         put_clc_and_tokens(bw, rng, [], False, clc_lens={sym: rng.randint(2, 7)})
         return
+    if inject == "sixteen-after-zero":
+        # a complete code in which part of a run of zero lengths is written as token 16 right after a zero: token 16 repeats the last
+        # NON-ZERO length (8 before any), so the code really described has extra symbols (over-subscribed, or at least another code)
+        # while a reader that repeats the PREVIOUS length sees the complete code
+        runs, i = [], 0
+        while i < len(lens):
+            if lens[i] == 0:
+                j = i
+                while j < len(lens) and lens[j] == 0:
+                    j += 1
+                if j - i >= 4:
+                    runs.append((i, j - i))
+                i = j
+            else:
+                i += 1
+        if runs:
+            st, ln = rng.choice(runs)
+            k = rng.randint(st + 1, st + ln - 3)
+            r = rng.randint(3, min(6, st + ln - k))
+            toks = V.rle(lens[:k]) + [(16, r - 3, 2)] + V.rle(lens[k + r:])
+            put_clc_and_tokens(bw, rng, toks, False)
+            return
+        inject = None
     if inject == "symbol-count":
         if rng.random() < .4:
             # the largest count fields (16-bit field holding 0xfffd..0xffff: counts 65535, 65536, 65537) followed by as many
@@ -180,7 +203,7 @@ def write_code(bw, rng, alphabet, lens_by_sym, inject=None, form=None):
     lens = [0] * alphabet
     for s, l in nz.items():
         lens[s] = l
-    if inject in ("symbol-count", "repeat-overrun", "clc-single-len"):
+    if inject in ("symbol-count", "repeat-overrun", "clc-single-len", "sixteen-after-zero"):
         write_normal(bw, rng, alphabet, lens, inject=inject)
         return
     simple_ok = (len(syms) == 1 and syms[0] < 256) or (len(syms) == 2 and all(s < 256 for s in syms) and all(nz[s] == 1 for s in syms))
@@ -267,7 +290,7 @@ def write_image(bw, rng, width, height, role, inject=None, groups_max=None, zero
                V.make_code(rng, as_, maxlen, deep), V.make_code(rng, dsyms, min(maxlen, 15), deep)]
     alph = [256 + 24 + cache_len, 256, 256, 256, 40]
     code_inj = inject if inject in ("symbol-count", "repeat-overrun", "incomplete", "oversubscribed", "empty", "outside-alphabet",
-                                    "single-len", "clc-single-len") else None
+                                    "single-len", "clc-single-len", "sixteen-after-zero") else None
     which = 4 if code_inj == "outside-alphabet" else rng.randrange(5)
     for j, (a, cl) in enumerate(zip(alph, codes_l)):
         write_code(bw, rng, a, cl, inject=code_inj if j == which else None)
